@@ -1460,11 +1460,14 @@ class Result:
         self.model = None  # dict name -> value (python exact numbers) for a violation
         self.info = None
         self.twin_sat = None  # reachability witness: was the final assertion reached on a feasible path
+        self.witness = None   # a concrete input (model of one explored path condition) on which the assertion holds
 
     def as_dict(self):
         d = dict(self.__dict__)
         if d["model"] is not None:
             d["model"] = {k: str(v) for k, v in d["model"].items()}
+        if d.get("witness") is not None:
+            d["witness"] = {k: str(v) for k, v in d["witness"].items()}
         d["info"] = repr(d["info"]) if d["info"] is not None else None
         return d
 
@@ -1526,6 +1529,14 @@ def explore(fn, max_paths=200000, budget_s=600.0, variables=None):
                         break
                     elif r == z3.unknown:
                         inconclusive.append("solver unknown on final assertion")
+                    elif res.witness is None and res.paths <= 64:
+                        # the assertion holds on this whole path: keep one concrete input of it, to be re-run on the real code
+                        try:
+                            if CTL.check() == z3.sat:
+                                m = CTL.solver.model()
+                                res.witness = {str(d): model_value(m, d()) for d in m.decls() if d.arity() == 0}
+                        except Exception:
+                            pass
                 elif not ok:
                     r = CTL.check()
                     if r == z3.sat:
